@@ -34,6 +34,11 @@ def obligations(tier):
             # two candles per append: the resume logic must find the last computed candle further back than the newest
             obs.append(Ob(f"standalone-append2/{spec_name((kind, name, kw))}", dict(spec=[kind, name, kw], n0=n0, grow=grow, host="indicator", tail=0, chunk=2), CFG,
                           weight=10, budget_s=300, max_paths=20000, selfcheck=False))
+        if kind == "ind" and name in ("MACD", "KC", "BBANDS", "ATR", "EMA", "RSI"):
+            # the same under configurations that must not change the amount of indicator work per append
+            for cname, extra in (("T1+fill", dict(timeframe="T1", timeframe_fill=True)), ("T1", dict(timeframe="T1")), ("HA", dict(candlestick_type="HA"))):
+                obs.append(Ob(f"standalone-config-{cname}/{spec_name((kind, name, kw))}", dict(spec=[kind, name, kw], n0=n0, grow=grow, host="indicator", tail=0, extra=extra), CFG,
+                              weight=10, budget_s=300, max_paths=20000, selfcheck=False))
         obs.append(Ob(f"standalone/{spec_name((kind, name, kw))}", dict(spec=[kind, name, kw], n0=n0, grow=grow, host="indicator", tail=tail), CFG, weight=10, budget_s=900, max_paths=20000, selfcheck=False))
     for trio in ([("ind", "EMA", dict(period=3)), ("ind", "RSI", dict(period=3)), ("ind", "BBANDS", dict(period=3))],
                  [("ind", "MACD", dict(fast_period=2, slow_period=3, signal_period=2)), ("ind", "STOCH", dict(period=3, slow_period=2, smoothing_k=2)), ("amorph", "rising", dict(indicator="close", length=2))]):
@@ -77,8 +82,8 @@ class Counter:
 
     def trace(self, frame, event, arg):
         fn = frame.f_code.co_filename
-        if "/verif/" in fn or not any(k in fn for k in COUNTED):
-            return None
+        if "/verif/" in fn or not any(k in fn for k in COUNTED) or fn.endswith("/utils/timeframe.py"):
+            return None      # utils/timeframe.py only serves the candle manager's collapse pass (outside the observation point)
         if frame.f_code.co_name == "_calculate_reading":
             self.calcs += 1
         self.lines += 1      # the call itself
@@ -120,7 +125,7 @@ def run(ctx, P):
         news = [Candle(o, h, l, c, v, timestamp=ctx.const_time(GRID0 + 60 * (n + 1 + j))) for j, (o, h, l, c, v) in enumerate(newvs)]
         new = news[0] if chunk == 1 else news
         if P["host"] == "indicator":
-            host = build_any(tuple(P["spec"]), candles=hist)
+            host = build_any(tuple(P["spec"]), candles=hist, **(P.get("extra") or {}))
             host.calculate()
         else:
             host = Hexital("hx", hist, [build_any(tuple(s)) for s in P["trio"]])
@@ -166,7 +171,7 @@ def finalize(col, obd, replayer):
 
 
 META = dict(
-    bounds=dict(quick="every catalogue indicator and analysis wrapper standalone + two Hexitals of three; append measured at history length n0 (>= warm-up+4) and n0+8, n0+24; last 2 history candles (Supertrend 1, ADX 0) and the appended candle symbolic, shared by all lengths, earlier history = tests/data/test_candles.json, a second family whose earlier history is flat with zero volume, and a third appending two candles per call",
+    bounds=dict(quick="every catalogue indicator and analysis wrapper standalone + two Hexitals of three; append measured at history length n0 (>= warm-up+4) and n0+8, n0+24; last 2 history candles (Supertrend 1, ADX 0) and the appended candle symbolic, shared by all lengths, earlier history = tests/data/test_candles.json, a second family whose earlier history is flat with zero volume, a third appending two candles per call, and a fourth under T1 / T1+fill / Heikin-Ashi configurations",
                 thorough="n0+8, +24, +64, +160"),
     stubs=["work = executed lines / _calculate_reading calls in hexital/{indicators,analysis,utils}, core/indicator.py, core/hexital.py, counted by sys.settrace during the real append; candle_manager.py excluded (its collapse pass is outside the property's observation point)"],
     assumptions=["the unbounded 'for all n' is not claimed: a regression that rescans or recomputes history grows by >= 2 lines per candle and exceeds the slack (12 lines; measured variation between lengths is <= 4 lines) inside the bound", "older history is concrete: work depends on values only through branches on recent candles"],
